@@ -857,7 +857,9 @@ func EncryptFRMPayload(key AES128Key, uplink bool, devAddr DevAddr, fCnt uint32,
 	pLen := len(data)
 	if pLen%16 != 0 {
 		// append with empty bytes so that len(data) is a multiple of 16
-		data = append(data, make([]byte, 16-(pLen%16))...)
+		// (the capacity is limited to the length so that append never writes
+		// into memory of the caller beyond the given slice)
+		data = append(data[:pLen:pLen], make([]byte, 16-(pLen%16))...)
 	}
 
 	block, err := aes.NewCipher(key[:])
